@@ -609,6 +609,9 @@ func (env *CEnv) call(n *Node) cval {
 	case "min":
 		a, b := env.term(n.Kids[0]), env.term(n.Kids[1])
 		return cval{V: Ite(Le(a, b), a, b)}
+	case "form":
+		r := env.eval(n.Kids[0])
+		return cval{V: App("form_value", SStr, reqBase(env.ex, env.scratchState(), r.V), env.term(n.Kids[1]))}
 	case "asstring":
 		// the string held by an interface value (x.(string))
 		x := env.term(n.Kids[0])
@@ -722,7 +725,7 @@ var specSigs = map[string]string{
 	"hash_ok": SBool, "sha512": SStr, "hash_of": SStr, "localize": SStr, "totp_ok": SBool,
 	"b64enc!std": SStr, "b64enc!url": SStr, "b64dec!std": SStr, "b64dec!url": SStr,
 	"time_format": SStr, "time_parse": SInt, "time_parse_ok": SBool, "fresh_error": SBool,
-	"str_split": SArr(SInt, SStr), "str_split_len": SInt, "str_join": SStr, "itoa": SStr, "atoi": SInt,
+	"str_lower": SStr, "filepath_base": SStr, "str_split": SArr(SInt, SStr), "str_split_len": SInt, "str_join": SStr, "itoa": SStr, "atoi": SInt,
 }
 
 func (env *CEnv) macro(name string) *SpecMacro {
